@@ -104,6 +104,12 @@ def run_case(case):
         for name, s, kept, src, rel in (("A", sa, ka, A, ra), ("B", sb, kb, B, rb)):
             got = call("spanset/construct", lambda: take(iter(s), len(src) + 1))[1]
             check(got == kept and len(s) == len(kept), "spanset/construct", kept, {name: src, "relation": rel, "kept": got})
+            # the iterable-of-spans form checks for duplicates whatever force_no_dup_check says (the flag is for the two-sequence form)
+            for arg in (list(src), iter(src), tuple(src)):
+                s3 = call("spanset/construct-flag", lambda: M.SpanSet(arg, force_no_dup_check=True, eq_relation=getattr(M, CLS[rel])()))[1]
+                got = call("spanset/construct-flag", lambda: take(iter(s3), len(src) + 1))[1]
+                check(got == kept and len(s3) == len(kept), "spanset/construct-flag", kept,
+                      {name: src, "relation": rel, "force_no_dup_check": True, "kept": got})
             s2 = call("spanset/construct-seqs", lambda: M.SpanSet([x[0] for x in src], [x[1] for x in src],
                                                                   eq_relation=getattr(M, CLS[rel])()))[1]
             got = call("spanset/construct-seqs", lambda: take(iter(s2), len(src) + 1))[1]
